@@ -71,6 +71,7 @@ class Site:
         self.ln = node.get("ln")
         self.fn = fn
         self.consumer = None
+        self.if_node = None
         self.loops = ()
         self.conds = ()
         self.order = 0
@@ -86,6 +87,8 @@ class StructInst:
         self.ty = node.get("t")
         self.ln = node.get("ln")
         self.fields = {}
+        self.field_locals = {}
+        self.conds = ()
         self.loops = loops
 
 
@@ -115,6 +118,7 @@ class Flow:
         self.loopstack = []
         self.condstack = []
         self.fnstack = []
+        self.ifnodes = {}
 
     # -- environment handling --------------------------------------------
     def bind(self, pat, av, env):
@@ -236,9 +240,13 @@ class Flow:
         cond = n["cond"]
         ccons = "if"
         before = len(self.g.completeness)
+        sbefore = len(self.g.sites)
+        self.ifnodes[id(n)] = n
         self.ev(cond, env, ccons)
         for ce in self.g.completeness[before:]:
             ce["if"] = n
+        for st in self.g.sites[sbefore:]:
+            st.if_node = n
         self.condstack.append(("if", id(n), True))
         r = self.ev(n["then"], env, c)
         self.condstack.pop()
@@ -314,8 +322,13 @@ class Flow:
     def ev_struct(self, n, env, c):
         inst = StructInst(len(self.g.structs), n, tuple(self.loopstack))
         self.g.structs.append(inst)
+        inst.conds = tuple(self.condstack)
+        inst.ifnodes = self.ifnodes
         for f in n.get("fields") or []:
             inst.fields[f["name"]] = self.ev(f["e"], env)
+            fe = peel(f["e"])
+            if isinstance(fe, dict) and fe.get("k") == "local":
+                inst.field_locals[f["name"]] = fe["id"]
         if n.get("base") is not None:
             self.ev(n["base"], env)
         return AV([("S", inst.id)])
